@@ -116,6 +116,22 @@ def build_cases(tier):
     mq = 'query AMix { user @mixin(from: ".mixins", import: "MixinA") { id friend @mixin(from: ".mixins", import: "MixinB") { id } } }\n' \
          'query AMix2 { user { ...FM } }\nfragment FM on User @mixin(from: ".mixins", import: "MixinA") { id }\n'
     add("A_mixins", corpus.SCHEMA_K, mq, {"files_to_include": ["@mixins.py"]}, files={"mixins.py": MIXIN_PY}, tags={"mixins"})
+    # the repository's own end-to-end fixtures (read from /repo at check time)
+    from checks import fixtures_common as fc
+    for name in fc.available():
+        sec = fc.load_fixture(name)
+        try:
+            schema_text = open(sec["schema_path"]).read()
+            queries = open(sec["queries_path"]).read() if sec.get("queries_path") else None
+        except Exception:  # noqa
+            continue
+        keep = {k: v for k, v in sec.items() if k not in ("schema_path", "queries_path", "target_package_name", "target_package_path", "include_comments", "plugins", "extract-operations")}  # plugins are C15's subject
+        variants = [{}] if keep.get("base_client_name") or keep.get("async_client") is False else [{}, {"async_client": False}]
+        for var in variants + [{"convert_to_snake_case": False}, {"opentelemetry_client": True}][: (2 if not keep.get("base_client_name") else 1)]:
+            if queries and "subscription" in queries and var.get("async_client") is False:
+                continue
+            cases.append(dict(label=f"fixture:{name}", schema=schema_text, queries=queries, options=dict(keep, **var), files={}, expect="ok",
+                              tags={f"fixture:{name}"} | {f"{k}={v}" for k, v in var.items()}))
     # refusals
     add("anon", corpus.SCHEMA_K, "{ user { id } }\n", expect="refusal", tags={"refusal:anonymous"})
     add("anon2", corpus.SCHEMA_K, "query { user { id } }\n", expect="refusal", tags={"refusal:anonymous"})
@@ -220,7 +236,7 @@ def main(tier):
     distinct = set()
     for case, (st, r) in zip(cases, results):
         feats = set(case["tags"]) | {f"label:{case['label']}"}
-        desc = {"label": case["label"], "options": case["options"], "queries": case["queries"][:1500], "schema": "K" if case["schema"] is corpus.SCHEMA_K else "B", "expect": case["expect"]}
+        desc = {"label": case["label"], "options": case["options"], "queries": (case["queries"] or "")[:1500], "schema": "K" if case["schema"] is corpus.SCHEMA_K else ("B" if case["schema"] is SCHEMA_B else "fixture"), "expect": case["expect"]}
         if rep.triage:
             rep.seen(feats)
         if st != "ok":
@@ -259,7 +275,7 @@ def replay(path):
     c = rec["case"]
     genpkg.warm()
     for case in build_cases("thorough"):
-        if case["label"] == c["label"] and case["options"] == c["options"] and case["queries"][:1500] == c["queries"]:
+        if case["label"] == c["label"] and case["options"] == c["options"] and (case["queries"] or "")[:1500] == c["queries"]:
             st, r = pool.run_forked(evaluate, case)
             print(st, r)
             return 1 if st != "ok" or r["problems"] or (r["status"] == "raised") != (case["expect"] != "ok") else 0
